@@ -19,48 +19,105 @@ open ScyllaVerif.StreamMap ScyllaVerif.Conn ScyllaVerif.FrameStream
 
 /-! ## 1. a break completes everyone -/
 
-/-- After the router ended (for whatever reason) no caller is left waiting: each one has an outcome in its oneshot
-(`delivered`), has returned (`done`) or had been abandoned. For every state satisfying the invariant, hence
+/-- After the router ended (for whatever reason) no caller is left waiting, except one that is in the middle of
+`submit_channel.send()` — it obtained channel capacity before the channel was closed and has not pushed its task
+yet (`permits`); its own next step completes it (`push_after_break_fails`). Everybody else has an outcome in its
+oneshot (`delivered`), has returned (`done`) or had been abandoned. For every state satisfying the invariant, hence
 (`inv_reachable`) for every event history and in-flight set. -/
-theorem break_completes_everyone (c : Conn) (h : Inv c) (k : BreakKind) (r : Nat) :
-    getCaller (doBreak c k).callers r ≠ some .waiting := by
-  intro hw
+theorem break_completes_everyone (c : Conn) (h : Inv c) (k : BreakKind) (r : Nat)
+    (hw : getCaller (doBreak c k).callers r = some .waiting) : r ∈ c.permits := by
   have hi := (h.callers.doBreak k).tracked r hw
-  rcases hi with m | m | ⟨s, hs⟩
+  rcases hi with m | m | ⟨s, hs⟩ | m
   · cases m
   · cases m
   · cases hs
+  · exact m
 
 /-- The same for the event itself … -/
 theorem break_event_completes_everyone (c : Conn) (h : Inv c) (hb : c.broken = false) (k : BreakKind) (r : Nat) :
-    (step c (.break_ k)).broken = true ∧ getCaller (step c (.break_ k)).callers r ≠ some .waiting := by
+    (step c (.break_ k)).broken = true ∧
+      (getCaller (step c (.break_ k)).callers r = some .waiting → r ∈ (step c (.break_ k)).permits) := by
   simp only [step, hb, Bool.false_eq_true, if_false]
   exact ⟨rfl, break_completes_everyone c h k r⟩
 
-/-- … and in general: in every reachable state with a dead router nobody waits. -/
-theorem broken_no_waiter (evs : List Ev) (r : Nat) (hb : (run Conn.init evs).broken = true) :
-    getCaller (run Conn.init evs).callers r ≠ some .waiting := by
-  intro hw
+/-- … and in general: in every reachable state with a dead router, whoever waits is in that window. -/
+theorem broken_waiter_holds_permit (evs : List Ev) (r : Nat) (hb : (run Conn.init evs).broken = true)
+    (hw : getCaller (run Conn.init evs).callers r = some .waiting) : r ∈ (run Conn.init evs).permits := by
   have h := Inv.reachable evs
-  obtain ⟨hq, hs, _, hh⟩ := h.map.brk hb
-  rcases h.callers.tracked r hw with m | m | ⟨s, hs'⟩
+  obtain ⟨hq, hs, _, hh, _⟩ := h.map.brk hb
+  rcases h.callers.tracked r hw with m | m | ⟨s, hs'⟩ | m
   · rw [hs] at m; cases m
   · rw [hq] at m; cases m
   · rw [hh] at hs'; cases hs'
+  · exact m
 
-/-- What each waiter gets: a registered one the error that broke the connection, a queued or parked one
-`ChannelError`. Nothing else changes (in particular a delivered response stays delivered). -/
+theorem broken_no_waiter (evs : List Ev) (r : Nat) (hb : (run Conn.init evs).broken = true)
+    (hp : (run Conn.init evs).permits = []) :
+    getCaller (run Conn.init evs).callers r ≠ some .waiting := by
+  intro hw
+  have := broken_waiter_holds_permit evs r hb hw
+  rw [hp] at this; cases this
+
+/-- The window closes: the racing caller's push reaches the drain loop (`receiver.close()` + `recv()` until every
+outstanding permit is used up), which fails the task with the error that broke the connection. This is the hang
+repaired by /repo commit 8b0b75c. -/
+theorem push_after_break_fails (c : Conn) (h : Inv c) (hb : c.broken = true) (r : Nat) (hp : r ∈ c.permits)
+    (hw : getCaller c.callers r = some .waiting) :
+    ∃ k, c.cause = some k ∧
+      getCaller (step c (.push r)).callers r = some (.delivered (.err (.broken k))) := by
+  obtain ⟨_, _, _, _, k, hk⟩ := h.map.brk hb
+  refine ⟨k, hk, ?_⟩
+  have hc : c.permits.contains r = true := by simpa using hp
+  simp only [step, hc, hb, if_true, getCaller_deliver, hw, drainErr, hk]
+  simp
+
+theorem push_permits (c : Conn) (r : Nat) : (step c (.push r)).permits = c.permits.filter (· != r) := by
+  simp only [step]
+  split
+  · split <;> rfl
+  · rename_i hc
+    have hc : r ∉ c.permits := by simpa using hc
+    symm
+    apply List.filter_eq_self.mpr
+    intro x hx
+    have : x ≠ r := fun e => hc (e ▸ hx)
+    simpa using this
+
+theorem pushes_permits (l : List Nat) (c : Conn) :
+    ∀ x, x ∈ (run c (l.map Ev.push)).permits → x ∈ c.permits ∧ x ∉ l := by
+  unfold Conn.run
+  induction l generalizing c with
+  | nil => intro x hx; exact ⟨hx, by simp⟩
+  | cons r rest ih =>
+    intro x hx
+    simp only [List.map_cons, List.foldl_cons] at hx
+    have := ih (step c (.push r)) x hx
+    rw [push_permits] at this
+    have hm := List.mem_filter.mp this.1
+    have hne : x ≠ r := by simpa using hm.2
+    exact ⟨hm.1, by simp [hne, this.2]⟩
+
+theorem run_broken_stays (evs : List Ev) (c : Conn) (hb : c.broken = true)
+    (hstep : ∀ c e, c.broken = true → (step c e).broken = true) : (run c evs).broken = true := by
+  unfold Conn.run
+  induction evs generalizing c with
+  | nil => exact hb
+  | cons e rest ih => exact ih (step c e) (hstep c e hb)
+
+/-- What each waiter gets: a registered or queued one the error that broke the connection, one parked for
+channel capacity `ChannelError`, one in the push window nothing yet. Nothing else changes (in particular a
+delivered response stays delivered). -/
 theorem break_outcomes (c : Conn) (k : BreakKind) (r : Nat) :
     getCaller (doBreak c k).callers r =
       if getCaller c.callers r = some .waiting then
-        (if r ∈ c.map.handlers.map (·.2) then some (.delivered (.err (.broken k)))
-         else if r ∈ c.queue ∨ r ∈ c.sending then some (.delivered (.err .channelError))
+        (if r ∈ c.map.handlers.map (·.2) ∨ r ∈ c.queue then some (.delivered (.err (.broken k)))
+         else if r ∈ c.sending then some (.delivered (.err .channelError))
          else some .waiting)
       else getCaller c.callers r :=
   doBreak_callers c k r
 
 theorem break_fails_waiters (c : Conn) (h : Inv c) (k : BreakKind) (r : Nat)
-    (hw : getCaller c.callers r = some .waiting) :
+    (hw : getCaller c.callers r = some .waiting) (hp : r ∉ c.permits) :
     getCaller (doBreak c k).callers r = some (.delivered (.err (.broken k))) ∨
     getCaller (doBreak c k).callers r = some (.delivered (.err .channelError)) := by
   have hne := break_completes_everyone c h k r
@@ -72,21 +129,53 @@ theorem break_fails_waiters (c : Conn) (h : Inv c) (k : BreakKind) (r : Nat)
     simp only [h1, if_false] at hne
     split
     · exact Or.inr rfl
-    · rename_i h2; simp only [h2, if_false] at hne; exact absurd rfl hne
+    · rename_i h2; simp only [h2, if_false] at hne; exact absurd (hne trivial) hp
 
-/-- non-vacuity: three requests — one written, one queued behind it, one answered but not yet polled — and a
-keep-alive timeout. -/
+/-- non-vacuity: four requests — one written, one queued behind it, one answered but not yet polled, one in the
+push window — and a keep-alive timeout; then the racing push. -/
 example :
-    let c := run Conn.init [.submit, .submit, .writerTake, .writerTake, .respond 1, .submit, .break_ .keepaliveTimeout]
+    let c := run Conn.init [.submit, .submit, .writerTake, .writerTake, .respond 1, .submit, .submitRace,
+      .break_ .keepaliveTimeout]
     getCaller c.callers 0 = some (.delivered (.err (.broken .keepaliveTimeout))) ∧
     getCaller c.callers 1 = some (.delivered (.frame 1)) ∧
-    getCaller c.callers 2 = some (.delivered (.err .channelError)) := by decide +kernel
+    getCaller c.callers 2 = some (.delivered (.err (.broken .keepaliveTimeout))) ∧
+    getCaller c.callers 3 = some .waiting ∧ c.permits = [3] ∧
+    getCaller (step c (.push 3)).callers 3 = some (.delivered (.err (.broken .keepaliveTimeout))) ∧
+    (step c (.push 3)).permits = [] := by decide +kernel
+
+/-- The router BEFORE /repo commit 8b0b75c merely dropped the receiver: a task pushed afterwards by a sender that
+already held capacity stayed in the dead channel for as long as the connection lived. -/
+def pushOld (c : Conn) (r : Nat) : Conn :=
+  if c.broken && c.permits.contains r then { c with permits := c.permits.filter (· != r) }
+  else step c (.push r)
+
+/-- Counterexample OF THE OLD MODEL (documentation of the repaired defect, not a statement about the current
+code): the racing caller is still waiting although the router is gone, the channel is empty, nobody holds capacity
+any more — no step of the system will ever complete it. -/
+example :
+    let c := pushOld (run Conn.init [.submitRace, .break_ .frameHeaderParseError]) 0
+    c.broken = true ∧ c.permits = [] ∧ c.queue = [] ∧ c.sending = [] ∧
+      getCaller c.callers 0 = some .waiting := by decide +kernel
 
 /-! ## 2. after the break -/
 
 theorem broken_stays (c : Conn) (e : Ev) (hb : c.broken = true) : (step c e).broken = true := by
   cases e <;> simp only [step, hb, if_true] <;> try rfl
   all_goals (split <;> first | rfl | exact hb)
+
+/-- Once every caller of the push window has pushed, nobody at all is waiting: the race window leaves no hang. -/
+theorem race_window_drains (c : Conn) (h : Inv c) (hb : c.broken = true) (r : Nat) :
+    getCaller (run c (c.permits.map Ev.push)).callers r ≠ some .waiting := by
+  intro hw
+  have hinv : Inv (run c (c.permits.map Ev.push)) := h.run _
+  have hb' := run_broken_stays (c.permits.map Ev.push) c hb broken_stays
+  obtain ⟨hq, hs, _, hh, _⟩ := hinv.map.brk hb'
+  rcases hinv.callers.tracked r hw with m | m | ⟨s, hs'⟩ | m
+  · rw [hs] at m; cases m
+  · rw [hq] at m; cases m
+  · rw [hh] at hs'; cases hs'
+  · have := pushes_permits c.permits c r m
+    exact this.2 this.1
 
 /-- A request submitted after the break fails immediately with `ChannelError`. -/
 theorem after_break_submit_fails (c : Conn) (hb : c.broken = true) :
@@ -113,6 +202,19 @@ theorem no_delivery_after_break_step (c : Conn) (e : Ev) (hb : c.broken = true) 
     · rcases h with e | e <;> cases e
     · exact h
   | enqueue r' => simpa only [step, hb, if_true] using h
+  | submitRace =>
+    simp only [step, hb, if_true, getCaller_setCaller] at h
+    split at h
+    · rcases h with e | e <;> cases e
+    · exact h
+  | push r' =>
+    simp only [step, hb, if_true] at h
+    split at h
+    · simp only [getCaller_deliver] at h
+      split at h
+      · rcases h with e | e <;> cases e
+      · exact h
+    · exact h
   | writerTake => simpa only [step, hb, if_true] using h
   | orphanerStep => simpa only [step, hb, if_true] using h
   | respond i => simpa only [step, hb, if_true] using h
@@ -159,7 +261,7 @@ theorem no_delivery_after_break (c : Conn) (evs : List Ev) (hb : c.broken = true
 theorem unsolicited_stream_breaks (c : Conn) (h : Inv c) (hb : c.broken = false) (s : Nat) (hs : s < 32768)
     (hno : ∀ r, (s, r) ∉ c.server) :
     (step c (.unsolicited s)).broken = true ∧ (step c (.unsolicited s)).cause = some .unexpectedStreamId ∧
-      ∀ r, getCaller (step c (.unsolicited s)).callers r ≠ some .waiting := by
+      ∀ r, getCaller (step c (.unsolicited s)).callers r = some .waiting → r ∈ c.permits := by
   have hany : ¬ (c.server.any (fun p => p.1 == s)) = true := by
     intro ha
     obtain ⟨⟨s', r'⟩, hm, e⟩ := List.any_eq_true.mp ha
@@ -174,15 +276,14 @@ theorem unsolicited_stream_breaks (c : Conn) (h : Inv c) (hb : c.broken = false)
   rw [e]
   refine ⟨rfl, rfl, ?_⟩
   intro r
-  apply break_completes_everyone
-  exact ⟨h.map.freeUnowed hstr, { h.callers with }⟩
+  exact break_completes_everyone _ ⟨h.map.freeUnowed hstr, { h.callers with }⟩ _ r
 
 /-- A keep-alive timeout is the break event with cause `KeepaliveTimeout` (the timer is abstract): the router
 ends, every handler receives that error. -/
 theorem keepalive_timeout_breaks (c : Conn) (h : Inv c) (hb : c.broken = false) (r : Nat) :
     step c (.break_ .keepaliveTimeout) = doBreak c .keepaliveTimeout ∧
     (step c (.break_ .keepaliveTimeout)).cause = some .keepaliveTimeout ∧
-    getCaller (step c (.break_ .keepaliveTimeout)).callers r ≠ some .waiting := by
+    (getCaller (step c (.break_ .keepaliveTimeout)).callers r = some .waiting → r ∈ c.permits) := by
   have e : step c (.break_ .keepaliveTimeout) = doBreak c .keepaliveTimeout := by
     simp only [step, hb, Bool.false_eq_true, if_false]
   rw [e]
